@@ -695,7 +695,9 @@ def o_C10(tr: Trace) -> Fails:
             a, b = e.st, before
             same = (a.state, a.step, a.prog, a.rdy, a.fsz, a.tid, a.chk, a.nak, a.ack) == \
                    (b.state, b.step, b.prog, b.rdy, b.fsz, b.tid, b.chk, b.nak, b.ack)
-            if not same or a.fs != "same" or a.ind or a.flt:
+            # (the filestore column is a delta against the handler's previous line: a user action on the
+            # filestore in between shows up here; compare the filestores themselves)
+            if not same or e.fs != e.fs_before or a.ind or a.flt:
                 f.add(f"C10:rejected-pdu-changed-state:{e.exc}:{tr.kinds[h]}:{step}:{inp}",
                       {"op": e.line[:240], "before": b.line[:200], "after": a.line[:200]}, e.idx)
     return f
